@@ -423,8 +423,8 @@ struct QExpression {
                     Value.Number.Real = -Value.Number.Real;
                 }
 
-                if ((Value.Number.Real < 1.0) && (Value.Number.Real > 0.0)) {
-                    // No power of fraction at the moment.
+                if ((Value.Number.Real < 9007199254740992.0) && (Value.Number.Real != double(SizeT64I(Value.Number.Real)))) {
+                    // No power of fraction at the moment: a non-integral base has no value (it is not truncated).
                     Value.Number.Natural = SizeT64{0};
                     Type                 = ExpressionType::NotANumber;
                     return false;
@@ -465,8 +465,8 @@ struct QExpression {
                     right_real = -right_real;
                 }
 
-                if ((right_real < 1.0) && (right_real > 0.0)) {
-                    // No power of fraction at the moment.
+                if ((right_real < 9007199254740992.0) && (right_real != double(SizeT64I(right_real)))) {
+                    // No power of fraction at the moment: a non-integral exponent has no value (it is not truncated).
                     Value.Number.Natural = SizeT64{0};
                     Type                 = ExpressionType::NotANumber;
                     return false;
